@@ -367,7 +367,9 @@ fn check_numbers(db: &Db, spellings: &[String], d: Dialect, format: bool) -> Vec
                 // long prefixed literals run into the lexer's digit limits (12 hex / 12 octal / 32 binary digits) and
                 // are rejected as a whole: no value reaches the database, which the property allows
                 let long_prefixed = s.len() > 12 && (s.starts_with("0x") || s.starts_with("0o") || s.starts_with("0b"));
-                if want.is_some() && !long_prefixed {
+                // a float spelling beyond the f64 range denotes no representable value: rejection is the answer
+                let beyond_f64 = matches!(want, Some(Err(f)) if !f.is_finite());
+                if want.is_some() && !long_prefixed && !beyond_f64 {
                     bad.push(Bad { key: "documented-number-rejected".into(), why: format!("{s} does not compile: {e}"), value: s.clone(), spelling: s.clone() });
                 }
             }
